@@ -470,6 +470,16 @@ class Master(loader.Loader):
 
                 self._update_task(app, servername, why=None)
 
+            # Placement restored by name may carry stale identity / expiry
+            # (e.g. identity group shrunk, lease re-evaluated).
+            for app in correct & current:
+                placement_data = self._placement_data(app)
+                appnode = os.path.join(placement_node, app)
+                if self.backend.get_default(appnode) != placement_data:
+                    _LOGGER.info('Updating placement: %s - %s',
+                                 servername, app)
+                    self.backend.put(appnode, placement_data)
+
         self._save_placement(placement)
         self.up_to_date = True
 
